@@ -824,6 +824,36 @@ func init() {
 				}
 			}
 		}
+		c.Phase("multisig-nullfail-matrix") // NULLFAIL with well-formed keys, signatures in key order: every mix of matching and empty signatures that fails overall
+		n = 0
+		for N := 2; N <= 4; N++ {
+			for M := 2; M <= N; M++ {
+				for mask := 1; mask < 1<<M-1; mask++ { // bit i set: slot i carries a correct signature; at least one set, at least one clear
+					for _, base := range []uint32{uint32(scriptflag.VerifyNullFail), uint32(scriptflag.VerifyNullFail | scriptflag.VerifyStrictEncoding | scriptflag.VerifyDERSignatures | scriptflag.VerifyLowS),
+						uint32(scriptflag.VerifyNullFail | scriptflag.EnableSighashForkID | scriptflag.UTXOAfterGenesis), 0} {
+						for _, not := range []bool{false, true} {
+							n++
+							N, M, mask, base, not := N, M, mask, base, not
+							run(n, func(r *prng.R) *c06Spec {
+								fork := scriptflag.Flag(base)&scriptflag.EnableSighashForkID != 0
+								sp := &c06Spec{Kind: "multisig", M: M, N: N, Not: not, SepPos: -1, SepKind: "plain", Flags: base}
+								for i := 0; i < N; i++ {
+									sp.KeyEnc = append(sp.KeyEnc, "c")
+								}
+								for i := 0; i < M; i++ {
+									cl := "empty"
+									if mask&(1<<i) != 0 {
+										cl = "correct"
+									}
+									sp.Slots = append(sp.Slots, slot(r, i+(N-M)*(i%2), cl, fork))
+								}
+								return sp
+							}, "multisig-nullfail-matrix")
+						}
+					}
+				}
+			}
+		}
 		c.Phase("multisig-large")
 		N2 := uint64(1500)
 		if c.Thorough {
